@@ -396,6 +396,16 @@ class Gen:
         mark = len(self.cur)
         self.path.append('citeopt')
         self.word()
+        if self.rnd.random() < .3:
+            # an opening bracket without partner inside the option (an interval): the option ends at the first ]
+            self.w(' ')
+            p = self.pos()
+            self.w('[')
+            self.cur.append(('[', p + 1, p + 1, 'w:citeopt-bracket'))
+            self.word()
+            p = self.pos()
+            self.w(')')
+            self.cur.append((')', p + 1, p + 1, 'w:citeopt-bracket'))
         self.path.pop()
         self.w(']{')
         self.hidden()
@@ -416,7 +426,7 @@ class Gen:
     def k_section(self):
         st = self.pos()
         self.w(self.rnd.choice(['\\section', '\\subsection*', '\\chapter', '\\section[' + self.hid_txt() + ']',
-                                '\\subsubsection', '\\part', '\\title', '\\section*']))
+                                '\\section[' + self.hid_txt() + ' [0,1)]', '\\subsubsection', '\\part', '\\title', '\\section*']))
         self.optws()
         self.in_head += 1
         m0 = len(self.cur)
